@@ -278,11 +278,16 @@ def check_2d_linear(rname, nx, ny, bcname, res=None):
     return out
 
 
-def check_2d(rname, nx, ny, res=None):
+def check_2d(rname, nx, ny, res=None, mix=None):
+    """mix: None = periodic in both directions; 'y' = periodic in y only (walls in x): the faces along y are judged; 'x' likewise"""
     kap = space.recon_kappa(rname)
     model = space.euler.euler2d()
     msh = space.mesh2.mesh2d(nx, ny, 2.0, 0.75)
     bcl = {t: {"type": "per"} for t in ("left", "right", "top", "bottom")}
+    if mix == "y":
+        bcl["left"] = bcl["right"] = {"type": "sym"}
+    elif mix == "x":
+        bcl["top"] = bcl["bottom"] = {"type": "sym"}
     disc = space.modeldisc.fvm2d(model, msh, space.recon(rname), bcl, numflux="centered")
     out = []
     nc = nx * ny
@@ -307,14 +312,14 @@ def check_2d(rname, nx, ny, res=None):
             return u0 if kap is None else u0 - 0.25 * ((1 - kap) * (up - u0) + (1 + kap) * (u0 - um))
         worst = 0.0
         where = None
-        for j in range(ny):
+        for j in (range(ny) if mix != "y" else ()):
             for i in range(nx + 1):
                 f = j * (nx + 1) + i
                 for got, want, side in ((pL[f], L_of(r2[j, :], i), "L"), (pR[f], R_of(r2[j, :], i), "R")):
                     e = abs(got - want)
                     if e > worst:
                         worst, where = e, ("i-face", j, i, side, got, want)
-        for j in range(ny + 1):
+        for j in (range(ny + 1) if mix != "x" else ()):
             for i in range(nx):
                 f = nxf + j * nx + i
                 for got, want, side in ((pL[f], L_of(r2[:, i], j), "L"), (pR[f], R_of(r2[:, i], j), "R")):
@@ -403,6 +408,10 @@ def shard_2d(arg):
     res.nontrivial += nx * ny
     for s, w in check_2d(rname, nx, ny, res):
         res.violation(s, w, {"kind": "2d", "recon": rname, "nx": nx, "ny": ny})
+    # periodic in one direction only (walls in the other): the faces along the periodic direction still see the periodic stencil
+    for mix in ("x", "y"):
+        for s, w in check_2d(rname, nx, ny, res, mix=mix):
+            res.violation(s.replace("C11/2d/", "C11/2d/periodic-in-%s-only/" % mix), w + " [grid periodic in %s only]" % mix, {"kind": "2d", "recon": rname, "nx": nx, "ny": ny, "mix": mix})
     return res
 
 
@@ -443,4 +452,6 @@ def replay(case):
         return check_int_data(case["recon"], tuple(case["widths"]))
     if k == "stencil":
         return check_stencil(case["recon"], case["n"], case["a"], case["L"], case["x0"])
+    if case.get("mix"):
+        return [(s_.replace("C11/2d/", "C11/2d/periodic-in-%s-only/" % case["mix"]), w + " [grid periodic in %s only]" % case["mix"]) for s_, w in check_2d(case["recon"], case["nx"], case["ny"], None, case["mix"])]
     return check_2d(case["recon"], case["nx"], case["ny"])
